@@ -89,6 +89,10 @@ XIncludeLocation::prependPath(const XMLCh *baseToAdd){
     relativeHref[lastSlash + 1] = chNull;
     XMLString::catString(relativeHref, hrefPath);
 
+    // Normalise the result ("dir/../"), as the inclusion history used for
+    // loop detection compares the locations as strings
+    XMLPlatformUtils::removeDotDotSlash(relativeHref);
+
     /* free the old reference */
     deallocate((void *)fHref);
 
